@@ -38,6 +38,39 @@ def match_known(known: list[dict], oid: str, instances) -> dict | None:
     return None
 
 
+class PlainVerdict:
+    def __init__(self, o: dict):
+        self.verdict = o["verdict"]
+        self.solver = o["solver"]
+        self.seconds = o["seconds"]
+        self.detail = o["detail"]
+
+
+def match_known_plain(known: list[dict], oid: str, plain: list[dict]) -> dict | None:
+    for k in known:
+        if k.get("kind") == "bounded":
+            continue
+        if oid not in k.get("obligations", []) and not any(re.fullmatch(p_, oid) for p_ in k.get("obligation_patterns", [])):
+            continue
+        sigs = k.get("case_signatures")
+        if not sigs:
+            return k
+        if all(any(all(part in o["path_sig"] for part in sig) for sig in sigs) for o in plain):
+            return k
+    return None
+
+
+def write_minimal(prop: str, oid: str, plain: list[dict]) -> str:
+    os.makedirs(os.path.join(ROOT, "replays", prop), exist_ok=True)
+    path = os.path.join("replays", prop, sanitize(oid) + ".json")
+    rec = {"property": prop, "obligation": oid, "path_signatures": [o["path_sig"] for o in plain][:10],
+           "solver": plain[0]["solver"], "solver_verdict": "refuted", "goal": plain[0]["goal"], "reproduced": False,
+           "note": "no-failing-input-found: obligation refuted by the solver on this tree (no native search attempted for this one)"}
+    with open(os.path.join(ROOT, path), "w") as f:
+        json.dump(rec, f, indent=1)
+    return path
+
+
 def native(script: str, payload: dict, repo: str, timeout: int = 300) -> dict:
     env = dict(os.environ)
     env["PYTHONPATH"] = os.path.join(repo, "src") + os.pathsep + os.path.join(ROOT, "native")
